@@ -442,6 +442,8 @@ def handleOp (e : Env) (fname : String) (n : Nat) (op : String) (d : Desc) (l : 
       let raw1 := a.getD 1 0 * R % e.p
       if raw1 > 1 then some { model := got, spec := ["r=1 " ++ fmt a], tags := ["upk-copy"] } else
       if e.qnr != -1 then some (unspecified "upk-qnr-not-minus-one") else
+      -- a0 = ±1: the only root of 1 − a0² is 0, whose representation is even; the flag 1 describes no element
+      if raw1 == 1 && (a.getD 0 0 * a.getD 0 0) % e.p == 1 then some (unspecified "pre-false") else
       -- a1 with a0² + a1² = 1 whose Montgomery representation has the given parity
       match d.parse? ((got.drop 4).toString) with
       | some r =>
